@@ -135,6 +135,14 @@ def spec_wires(s):
                     add(w)
             elif k in ("target_wire", "work_wire") and v is not None:
                 add(v)
+            elif k in ("wires1", "wires2", "control") and isinstance(v, list):
+                for w in v:
+                    add(w)
+            elif isinstance(v, dict) and "op" in v:
+                visit(v)
+            elif isinstance(v, list) and v and isinstance(v[0], dict) and "op" in v[0]:
+                for o in v:
+                    visit(o)
         for k in ("base", "compute", "target", "uncompute", "obs"):
             if isinstance(x.get(k), dict):
                 visit(x[k])
@@ -194,3 +202,659 @@ def coverage_labels(reached=None):
     if unc:
         labs.append("zoo:uncovered=" + ",".join(unc))
     return labs
+
+
+# ---------------------------------------------------------------------------------------------------
+# additional zoo entries
+# ---------------------------------------------------------------------------------------------------
+# extra tags: "nomatrix" (no matrix representation), "meta", "mcm", "opargs" (operator-valued arguments),
+#             "workwires" (declares work wires), "nonunitary", "breaks:<convention>" (documented in
+#             tests/ops/functions/conftest.py::_INSTANCES_TO_FAIL)
+
+PROB = st.sampled_from([0.0, 1.0, 0.5, 0.25]) | st.floats(0, 1).map(lambda x: round(x, 4))
+
+
+def _arr(shape):
+    n = 1
+    for d in shape:
+        n *= d
+    return st.lists(gen.angles(), min_size=min(n, 6), max_size=min(n, 6)).map(lambda fl: {"arr": fl, "shape": list(shape)})
+
+
+def _p(x):
+    """specs.param plus {"arr": floats, "shape": [...]} (cyclic fill, deterministic) and {"kraus": ...}."""
+    import numpy as np
+
+    if isinstance(x, dict) and "arr" in x:
+        n = int(np.prod(x["shape"])) if x["shape"] else 1
+        fl = list(x["arr"]) or [0.0]
+        if "scale" in x:  # bounded fill: |entry| <= scale * max|fl|
+            vals = np.array([x["scale"] * fl[i % len(fl)] * (1.0 if (i // len(fl)) % 2 == 0 else -0.7) for i in range(n)], dtype=float)
+        else:
+            vals = np.array([fl[i % len(fl)] + 0.173 * (i // len(fl)) for i in range(n)], dtype=float)
+        return vals.reshape(x["shape"])
+    if isinstance(x, dict) and "kraus" in x:
+        p = x["p"]
+        U0 = specs.unitary_from_floats(x["kraus"], x["n"])
+        U1 = specs.unitary_from_floats(list(reversed(x["kraus"])), x["n"])
+        return [np.sqrt(p) * U0, np.sqrt(1 - p) * U1]
+    if isinstance(x, dict) and "rho" in x:
+        v1 = specs.vec_from_floats(x["rho"], x["n"])
+        v2 = specs.vec_from_floats(list(reversed(x["rho"])), x["n"])
+        q = x["q"]
+        return q * np.outer(v1, v1.conj()) + (1 - q) * np.outer(v2, v2.conj())
+    if isinstance(x, dict) and "sparseH" in x:
+        import scipy.sparse as sp
+
+        return sp.csr_matrix(specs.hermitian_from_floats(x["sparseH"], x["n"]) * (np.abs(specs.hermitian_from_floats(x["sparseH"], x["n"])) > 0.3))
+    return specs.param(x)
+
+
+WIRE_KEYS = ("work_wires", "control_wires", "x_wires", "y_wires", "output_wires", "target_wires", "estimation_wires", "control",
+             "reflection_wires", "precision_wires", "wires1", "wires2")
+
+
+def generic_build(s, cls=None):
+    """cls(*params, wires=..., **kw) with wire-valued keyword arguments converted and operator-valued ones built."""
+    import pennylane as qp
+
+    kind = s["op"]
+    cls = cls or getattr(qp, kind, None) or getattr(qp.ops, kind, None) or getattr(qp.templates, kind, None)
+    ps = [_p(p) for p in s.get("p", [])]
+    kw = {}
+    for k, v in (s.get("kw") or {}).items():
+        if k in WIRE_KEYS and isinstance(v, list):
+            kw[k] = _w(v)
+        elif k in ("work_wire", "target_wire") and v is not None:
+            kw[k] = specs.wire(v)
+        elif isinstance(v, dict) and "op" in v:
+            kw[k] = build(v)
+        elif isinstance(v, list) and v and isinstance(v[0], dict) and "op" in v[0]:
+            kw[k] = [build(o) for o in v]
+        elif isinstance(v, dict):
+            kw[k] = _p(v)
+        else:
+            kw[k] = v
+    if s.get("w") is not None:
+        kw["wires"] = _w(s["w"])
+    return cls(*ps, **kw)
+
+
+def _reg_generic(name, min_wires, *tags, cls_path=None):
+    """Register a zoo entry built by generic_build."""
+    def deco(f):
+        ZOO[name] = (f, min_wires, set(tags))
+
+        def b(s):
+            cls = None
+            if cls_path:
+                import importlib
+
+                mod, attr = cls_path.rsplit(".", 1)
+                cls = getattr(importlib.import_module(mod), attr)
+            return generic_build(s, cls)
+        BUILDERS[name] = b
+        return f
+    return deco
+
+
+def _sub(wires, lo, hi=None):
+    hi = min(hi if hi is not None else len(wires), len(wires))
+    return st.integers(lo, hi).flatmap(lambda k: gen.subset(wires, k))
+
+
+# ---- channels --------------------------------------------------------------------------------------
+for _n, _np in (("AmplitudeDamping", 1), ("BitFlip", 1), ("DepolarizingChannel", 1), ("PhaseDamping", 1), ("PhaseFlip", 1),
+                ("GeneralizedAmplitudeDamping", 2)):
+    def _mk(name=_n, npar=_np):
+        def f(wires):
+            return st.tuples(st.lists(PROB, min_size=npar, max_size=npar), gen.subset(wires, 1)).map(
+                lambda t: {"op": name, "p": t[0], "w": t[1]})
+        return f
+    _reg_generic(_n, 1, "channel", "nomatrix", "nonunitary", "param")(_mk())
+
+
+@_reg_generic("ResetError", 1, "channel", "nomatrix", "nonunitary", "param")
+def _reset_error(wires):
+    return st.tuples(PROB, PROB, gen.subset(wires, 1)).map(lambda t: {"op": "ResetError", "p": [round(t[0] * 0.5, 4), round(t[1] * 0.5, 4)], "w": t[2]})
+
+
+@_reg_generic("ThermalRelaxationError", 1, "channel", "nomatrix", "nonunitary", "param")
+def _thermal(wires):
+    # documented domain: 0<=pe<=1, t1>0, 0<t2<=2*t1, tg>=0 (both regimes t2<=t1 and t1<t2<=2t1)
+    return st.tuples(PROB, st.sampled_from([0.5, 1.0, 3.0]), st.sampled_from([0.25, 0.5, 1.0, 1.5, 2.0]), st.sampled_from([0.0, 0.1, 1.0]),
+                     gen.subset(wires, 1)).map(lambda t: {"op": "ThermalRelaxationError", "p": [t[0], t[1], round(t[1] * t[2], 4), t[3]], "w": t[4]})
+
+
+@reg("PauliError", 1, "channel", "nomatrix", "nonunitary", "breaks:decomposition")
+def _pauli_error(wires):
+    return _sub(wires, 1, 2).flatmap(lambda w: st.tuples(st.text("XYZI", min_size=len(w), max_size=len(w)), PROB).map(
+        lambda t: {"op": "PauliError", "p": [], "w": w, "kw": {"operators": t[0], "p": t[1]}}))
+
+
+@builder("PauliError")
+def _b_pauli_error(s):
+    import pennylane as qp
+
+    return qp.PauliError(s["kw"]["operators"], s["kw"]["p"], wires=_w(s["w"]))
+
+
+@_reg_generic("QubitChannel", 1, "channel", "nomatrix", "nonunitary")
+def _qubit_channel(wires):
+    return _sub(wires, 1, 2).flatmap(lambda w: st.tuples(gen.float_list(6), PROB).map(
+        lambda t: {"op": "QubitChannel", "p": [{"kraus": t[0], "p": t[1], "n": len(w)}], "w": w}))
+
+
+# ---- meta -----------------------------------------------------------------------------------------
+@_reg_generic("Barrier", 1, "meta")
+def _barrier(wires):
+    return st.tuples(_sub(wires, 1, 3), st.booleans()).map(lambda t: {"op": "Barrier", "p": [], "w": t[0], "kw": {"only_visual": t[1]}})
+
+
+@_reg_generic("WireCut", 1, "meta", "nomatrix")
+def _wirecut(wires):
+    return _sub(wires, 1, 2).map(lambda w: {"op": "WireCut", "p": [], "w": w})
+
+
+@reg("Snapshot", 0, "meta", "nomatrix")
+def _snapshot(wires):
+    return st.sampled_from([None, "tag", "a b"]).map(lambda t: {"op": "Snapshot", "p": [], "w": [], "kw": {"tag": t}})
+
+
+@reg("MidMeasure", 1, "mcm", "nomatrix", "nonunitary")
+def _midmeasure(wires):
+    return st.tuples(gen.subset(wires, 1), st.booleans(), st.sampled_from([None, 0, 1])).map(
+        lambda t: {"op": "MidMeasure", "p": [], "w": t[0], "kw": {"reset": t[1], "postselect": t[2], "meas_uid": "m0"}})
+
+
+@builder("MidMeasure")
+def _b_midmeasure(s):
+    import pennylane as qp
+
+    return qp.ops.MidMeasure(wires=_w(s["w"]), **s["kw"])
+
+
+@reg("PauliMeasure", 1, "mcm", "nomatrix", "nonunitary")
+def _paulimeasure(wires):
+    return _sub(wires, 1, 3).flatmap(lambda w: st.tuples(st.text("XYZ", min_size=len(w), max_size=len(w)), st.sampled_from([None, 0, 1])).map(
+        lambda t: {"op": "PauliMeasure", "p": [], "w": w, "kw": {"pauli_word": t[0], "postselect": t[1], "meas_uid": "m1"}}))
+
+
+@builder("PauliMeasure")
+def _b_paulimeasure(s):
+    import pennylane as qp
+
+    return qp.ops.PauliMeasure(s["kw"]["pauli_word"], wires=_w(s["w"]), postselect=s["kw"]["postselect"], meas_uid=s["kw"]["meas_uid"])
+
+
+# ---- qubit arithmetic / matrix ops / observables ------------------------------------------------------
+@reg("IntegerComparator", 2, "unitary", "matrix")
+def _int_comparator(wires):
+    return _sub(wires, 2, 4).flatmap(lambda w: st.tuples(st.integers(0, 2 ** (len(w) - 1) + 1), st.booleans()).map(
+        lambda t: {"op": "IntegerComparator", "p": [], "w": w, "kw": {"value": t[0], "geq": t[1]}}))
+
+
+@builder("IntegerComparator")
+def _b_int_comparator(s):
+    import pennylane as qp
+
+    return qp.IntegerComparator(s["kw"]["value"], geq=s["kw"]["geq"], wires=_w(s["w"]))
+
+
+@_reg_generic("QubitCarry", 4, "unitary", "matrix")
+def _qubit_carry(wires):
+    return gen.subset(wires, 4).map(lambda w: {"op": "QubitCarry", "p": [], "w": w})
+
+
+@_reg_generic("QubitSum", 3, "unitary", "matrix")
+def _qubit_sum(wires):
+    return gen.subset(wires, 3).map(lambda w: {"op": "QubitSum", "p": [], "w": w})
+
+
+@_reg_generic("BlockEncode", 1, "unitary", "matrix")
+def _block_encode(wires):
+    # A is r x c with spectral norm <= 1 (entries in [-0.3, 0.3], r, c <= 3), on enough wires to hold r + c rows
+    def mk(t):
+        r, c, fl, ws = t
+        return {"op": "BlockEncode", "p": [{"arr": fl, "shape": [r, c], "scale": 0.3}], "w": ws}
+    return st.tuples(st.integers(1, 3), st.integers(1, 3), gen.float_list(5), _sub(wires, 3, 3) if len(wires) >= 3 else st.nothing()).map(mk)
+
+
+ZOO["BlockEncode"] = (ZOO["BlockEncode"][0], 3, ZOO["BlockEncode"][2])
+
+
+@reg("SparseHamiltonian", 1, "herm", "sparse", "nomatrix", "breaks:data")
+def _sparse_ham(wires):
+    return _sub(wires, 1, 3).flatmap(lambda w: gen.float_list(6).map(lambda fl: {"op": "SparseHamiltonian", "p": [{"sparseH": fl, "n": len(w)}], "w": w}))
+
+
+BUILDERS["SparseHamiltonian"] = generic_build
+
+
+@reg("TmpPauliRot", 1, "unitary", "param", "breaks:has_matrix")
+def _tmp_pauli_rot(wires):
+    return _sub(wires, 1, 2).flatmap(lambda w: st.tuples(gen.angles(), st.text("XYZ", min_size=len(w), max_size=len(w))).map(
+        lambda t: {"op": "TmpPauliRot", "p": [t[0]], "w": w, "kw": {"pauli_word": t[1]}}))
+
+
+@builder("TmpPauliRot")
+def _b_tmp_pauli_rot(s):
+    from pennylane.ops.qubit.special_unitary import TmpPauliRot
+
+    return TmpPauliRot(s["p"][0], s["kw"]["pauli_word"], wires=_w(s["w"]))
+
+
+# ---- state preparations --------------------------------------------------------------------------------
+@_reg_generic("BasisState", 1, "stateprep", "nomatrix")
+def _basis_state(wires):
+    return _sub(wires, 1, 4).flatmap(lambda w: st.lists(st.integers(0, 1), min_size=len(w), max_size=len(w)).map(
+        lambda b: {"op": "BasisState", "p": [b], "w": w}))
+
+
+@_reg_generic("StatePrep", 1, "stateprep", "nomatrix")
+def _state_prep(wires):
+    return _sub(wires, 1, 3).flatmap(lambda w: gen.float_list(5).map(lambda fl: {"op": "StatePrep", "p": [{"vec": fl, "n": len(w)}], "w": w}))
+
+
+@_reg_generic("QubitDensityMatrix", 1, "stateprep", "nomatrix")
+def _qdm(wires):
+    return _sub(wires, 1, 2).flatmap(lambda w: st.tuples(gen.float_list(5), PROB).map(
+        lambda t: {"op": "QubitDensityMatrix", "p": [{"rho": t[0], "q": t[1], "n": len(w)}], "w": w}))
+
+
+@_reg_generic("AmplitudeEmbedding", 1, "stateprep", "template", "nomatrix")
+def _amp_embedding(wires):
+    return _sub(wires, 1, 3).flatmap(lambda w: gen.float_list(5).map(lambda fl: {"op": "AmplitudeEmbedding", "p": [{"vec": fl, "n": len(w)}], "w": w}))
+
+
+@_reg_generic("MottonenStatePreparation", 1, "stateprep", "template", "nomatrix", "decomp")
+def _mottonen(wires):
+    return _sub(wires, 1, 3).flatmap(lambda w: gen.float_list(5).map(lambda fl: {"op": "MottonenStatePreparation", "p": [{"vec": fl, "n": len(w)}], "w": w}))
+
+
+@_reg_generic("MultiplexerStatePreparation", 1, "stateprep", "template", "nomatrix", "decomp")
+def _multiplexer_sp(wires):
+    return _sub(wires, 1, 3).flatmap(lambda w: gen.float_list(5).map(lambda fl: {"op": "MultiplexerStatePreparation", "p": [{"vec": fl, "n": len(w)}], "w": w}))
+
+
+@_reg_generic("ArbitraryStatePreparation", 1, "stateprep", "template", "nomatrix", "decomp", "param")
+def _arb_sp(wires):
+    return _sub(wires, 1, 3).flatmap(lambda w: _arr((2 ** (len(w) + 1) - 2,)).map(lambda a: {"op": "ArbitraryStatePreparation", "p": [a], "w": w}))
+
+
+@_reg_generic("CosineWindow", 1, "stateprep", "template", "nomatrix", "decomp")
+def _cosine_window(wires):
+    return _sub(wires, 1, 4).map(lambda w: {"op": "CosineWindow", "p": [], "w": w})
+
+
+# ---- embeddings / layers (unitary templates without a matrix) ----------------------------------------------
+@_reg_generic("AngleEmbedding", 1, "template", "nomatrix", "decomp", "param")
+def _angle_embedding(wires):
+    return _sub(wires, 1, 4).flatmap(lambda w: st.tuples(st.integers(1, len(w)), st.sampled_from("XYZ")).flatmap(
+        lambda t: _arr((t[0],)).map(lambda a: {"op": "AngleEmbedding", "p": [a], "w": w, "kw": {"rotation": t[1]}})))
+
+
+@_reg_generic("IQPEmbedding", 1, "template", "nomatrix", "decomp", "param")
+def _iqp_embedding(wires):
+    return _sub(wires, 1, 4).flatmap(lambda w: st.tuples(_arr((len(w),)), st.integers(1, 2)).map(
+        lambda t: {"op": "IQPEmbedding", "p": [t[0]], "w": w, "kw": {"n_repeats": t[1]}}))
+
+
+@_reg_generic("QAOAEmbedding", 1, "template", "nomatrix", "decomp", "param")
+def _qaoa_embedding(wires):
+    def mk(w):
+        n = len(w)
+        cols = 1 if n == 1 else 3 if n == 2 else 2 * n
+        return st.tuples(st.integers(1, n), st.integers(1, 2), st.sampled_from("XYZ")).flatmap(
+            lambda t: st.tuples(_arr((t[0],)), _arr((t[1], cols))).map(
+                lambda a: {"op": "QAOAEmbedding", "p": [a[0], a[1]], "w": w, "kw": {"local_field": t[2]}}))
+    return _sub(wires, 1, 4).flatmap(mk)
+
+
+@_reg_generic("BasicEntanglerLayers", 1, "template", "nomatrix", "decomp", "param")
+def _basic_entangler(wires):
+    return _sub(wires, 1, 4).flatmap(lambda w: st.tuples(st.integers(1, 2), st.sampled_from(["RX", "RY", "RZ", None])).flatmap(
+        lambda t: _arr((t[0], len(w))).map(lambda a: {"op": "BasicEntanglerLayers", "p": [a], "w": w, "kw": {"rotation": t[1]}})))
+
+
+@builder("BasicEntanglerLayers")
+def _b_basic_entangler(s):
+    import pennylane as qp
+
+    rot = s["kw"].get("rotation")
+    return qp.BasicEntanglerLayers(_p(s["p"][0]), wires=_w(s["w"]), rotation=getattr(qp, rot) if rot else None)
+
+
+@_reg_generic("StronglyEntanglingLayers", 1, "template", "nomatrix", "decomp", "param")
+def _strongly_entangling(wires):
+    def mk(w):
+        n = len(w)
+        return st.integers(1, 2).flatmap(lambda L: st.tuples(
+            _arr((L, n, 3)), st.none() if n == 1 else st.one_of(st.none(), st.lists(st.integers(1, n - 1), min_size=L, max_size=L))).map(
+            lambda t: {"op": "StronglyEntanglingLayers", "p": [t[0]], "w": w, "kw": {"ranges": t[1]}}))
+    return _sub(wires, 1, 4).flatmap(mk)
+
+
+@_reg_generic("RandomLayers", 1, "template", "nomatrix", "decomp", "param")
+def _random_layers(wires):
+    return _sub(wires, 1, 4).flatmap(lambda w: st.tuples(st.integers(1, 2), st.integers(1, 3), st.integers(0, 5)).flatmap(
+        lambda t: _arr((t[0], t[1])).map(lambda a: {"op": "RandomLayers", "p": [a], "w": w, "kw": {"seed": t[2]}})))
+
+
+@_reg_generic("SimplifiedTwoDesign", 1, "template", "nomatrix", "decomp", "param")
+def _simplified_two_design(wires):
+    return _sub(wires, 2, 4).flatmap(lambda w: st.integers(1, 2).flatmap(lambda L: st.tuples(_arr((len(w),)), _arr((L, len(w) - 1, 2))).map(
+        lambda t: {"op": "SimplifiedTwoDesign", "p": [t[0], t[1]], "w": w})))
+
+
+ZOO["SimplifiedTwoDesign"] = (ZOO["SimplifiedTwoDesign"][0], 2, ZOO["SimplifiedTwoDesign"][2])
+
+
+@_reg_generic("ArbitraryUnitary", 1, "template", "nomatrix", "decomp", "param")
+def _arbitrary_unitary(wires):
+    return _sub(wires, 1, 2).flatmap(lambda w: _arr((4 ** len(w) - 1,)).map(lambda a: {"op": "ArbitraryUnitary", "p": [a], "w": w}))
+
+
+@_reg_generic("FermionicSingleExcitation", 2, "template", "nomatrix", "decomp", "param")
+def _fermionic_single(wires):
+    return _sub(wires, 2, 4).flatmap(lambda w: gen.angles().map(lambda a: {"op": "FermionicSingleExcitation", "p": [a], "w": w}))
+
+
+@_reg_generic("FFFT", 2, "template", "nomatrix", "decomp")
+def _ffft(wires):
+    return st.sampled_from([k for k in (2, 4) if k <= len(wires)]).flatmap(lambda k: gen.subset(wires, k)).map(lambda w: {"op": "FFFT", "p": [], "w": w})
+
+
+@_reg_generic("TwoWireFFT", 2, "template", "nomatrix", "decomp")
+def _two_wire_fft(wires):
+    return gen.subset(wires, 2).map(lambda w: {"op": "TwoWireFFT", "p": [], "w": w})
+
+
+# ---- templates with operator-valued arguments --------------------------------------------------------------
+NAMED1 = {k: v for k, v in gen.GATES1.items()}
+NAMED12 = {**gen.GATES1, **gen.GATES2}
+
+
+def _pauli_ham(wires, min_terms=2, max_terms=3):
+    """LinearCombination of Pauli words with real coefficients (>= min_terms terms)."""
+    return st.lists(st.tuples(gen.floats01.filter(lambda c: abs(c) > 0.05), gen.pauli_word_obs(wires, 2)), min_size=min_terms, max_size=max_terms).map(
+        lambda ts: {"op": "lincomb", "coeffs": [c for c, _ in ts], "operands": [o for _, o in ts]})
+
+
+def _pauli_sum(wires, min_terms=2, max_terms=3):
+    return _pauli_ham(wires, min_terms, max_terms).map(
+        lambda h: {"op": "sum", "operands": [{"op": "s_prod", "c": c, "base": o} for c, o in zip(h["coeffs"], h["operands"])]})
+
+
+@st.composite
+def _split2(draw, wires, k_lo, k_hi):
+    """(k chosen wires, remaining wires) with k in [k_lo, k_hi] and at least one remaining wire."""
+    k = draw(st.integers(k_lo, min(k_hi, len(wires) - 1)))
+    p = list(draw(st.permutations(wires)))
+    return p[:k], p[k:]
+
+
+@_reg_generic("ControlledSequence", 2, "template", "nomatrix", "decomp", "opargs")
+def _controlled_sequence(wires):
+    return _split2(wires, 1, 2).flatmap(lambda t: gen.gate(t[1][:2], NAMED12).map(
+        lambda b: {"op": "ControlledSequence", "p": [], "w": None, "kw": {"base": b, "control": t[0]}}))
+
+
+@_reg_generic("QuantumPhaseEstimation", 2, "template", "nomatrix", "decomp", "opargs")
+def _qpe(wires):
+    return _split2(wires, 1, 2).flatmap(lambda t: gen.gate(t[1][:2], NAMED12).map(
+        lambda b: {"op": "QuantumPhaseEstimation", "p": [], "w": None, "kw": {"unitary": b, "estimation_wires": t[0]}}))
+
+
+@_reg_generic("Reflection", 1, "template", "nomatrix", "decomp", "opargs", "param")
+def _reflection(wires):
+    def mk(b):
+        from pv.specs import spec_wires
+        bw = spec_wires(b)
+        return st.tuples(gen.angles(), st.one_of(st.none(), st.integers(1, len(bw)).flatmap(lambda k: gen.subset(bw, k)))).map(
+            lambda t: {"op": "Reflection", "p": [], "w": None, "kw": {"U": b, "alpha": t[0], "reflection_wires": t[1]}})
+    return gen.gate(wires[:3], NAMED12).flatmap(mk)
+
+
+@_reg_generic("Select", 2, "template", "nomatrix", "decomp", "opargs")
+def _select(wires):
+    def mk(t):
+        cw, rest = t
+        return st.lists(gen.gate(rest[:2], NAMED12), min_size=1, max_size=2 ** len(cw)).map(
+            lambda ops: {"op": "Select", "p": [], "w": None, "kw": {"ops": ops, "control": cw}})
+    return _split2(wires, 1, 2).flatmap(mk)
+
+
+@_reg_generic("Qubitization", 2, "template", "nomatrix", "decomp", "opargs")
+def _qubitization(wires):
+    def mk(t):
+        cw, rest = t
+        return _pauli_ham(rest[:2], 2, 2 ** len(cw)).map(lambda h: {"op": "Qubitization", "p": [], "w": None, "kw": {"hamiltonian": h, "control": cw}})
+    return _split2(wires, 1, 2).flatmap(mk)
+
+
+@_reg_generic("PrepSelPrep", 2, "template", "nomatrix", "decomp", "opargs")
+def _prepselprep(wires):
+    def mk(t):
+        cw, rest = t
+        return _pauli_ham(rest[:2], 2, 2 ** len(cw)).map(lambda h: {"op": "PrepSelPrep", "p": [], "w": None, "kw": {"lcu": h, "control": cw}})
+    return _split2(wires, 1, 2).flatmap(mk)
+
+
+@_reg_generic("ApproxTimeEvolution", 1, "template", "nomatrix", "decomp", "opargs", "param")
+def _approx_time_evolution(wires):
+    return st.tuples(_pauli_ham(wires[:3], 1, 3), gen.angles(), st.integers(1, 3)).map(
+        lambda t: {"op": "ApproxTimeEvolution", "p": [], "w": None, "kw": {"hamiltonian": t[0], "time": t[1], "n": t[2]}})
+
+
+@_reg_generic("TrotterProduct", 1, "template", "nomatrix", "decomp", "opargs", "param")
+def _trotter_product(wires):
+    return st.tuples(_pauli_sum(wires[:3], 2, 3), gen.angles(), st.integers(1, 2), st.sampled_from([1, 2, 4])).map(
+        lambda t: {"op": "TrotterProduct", "p": [], "w": None, "kw": {"hamiltonian": t[0], "time": t[1], "n": t[2], "order": t[3]}})
+
+
+@_reg_generic("QDrift", 1, "template", "nomatrix", "decomp", "opargs", "param")
+def _qdrift(wires):
+    return st.tuples(_pauli_sum(wires[:3], 2, 3), gen.angles(), st.integers(1, 3), st.integers(0, 9)).map(
+        lambda t: {"op": "QDrift", "p": [], "w": None, "kw": {"hamiltonian": t[0], "time": t[1], "n": t[2], "seed": t[3]}})
+
+
+@_reg_generic("CommutingEvolution", 1, "template", "nomatrix", "decomp", "opargs", "param")
+def _commuting_evolution(wires):
+    # documented precondition: the Hamiltonian terms commute -> words over {Z, I} only
+    def zword(ws):
+        return {"op": "PauliZ", "w": [ws[0]]} if len(ws) == 1 else {"op": "prod", "operands": [{"op": "PauliZ", "w": [w]} for w in ws]}
+    ham = st.lists(st.tuples(gen.floats01.filter(lambda c: abs(c) > 0.05), _sub(wires[:3], 1, 2).map(zword)), min_size=1, max_size=3).map(
+        lambda ts: {"op": "lincomb", "coeffs": [c for c, _ in ts], "operands": [o for _, o in ts]})
+    return st.tuples(ham, gen.angles()).map(lambda t: {"op": "CommutingEvolution", "p": [], "w": None, "kw": {"hamiltonian": t[0], "time": t[1]}})
+
+
+@_reg_generic("AmplitudeAmplification", 1, "template", "nomatrix", "decomp", "opargs")
+def _amplitude_amplification(wires):
+    ws = wires[:3]
+
+    def mk(n):
+        w = ws[:n]
+        U = {"op": "prod", "operands": [{"op": "Hadamard", "p": [], "w": [x]} for x in w]} if n > 1 else {"op": "Hadamard", "p": [], "w": w}
+        return st.tuples(st.lists(st.integers(0, 1), min_size=n, max_size=n), st.integers(1, 3)).map(
+            lambda t: {"op": "AmplitudeAmplification", "p": [], "w": None,
+                       "kw": {"U": U, "O": {"op": "FlipSign", "p": [], "w": w, "kw": {"state": t[0]}}, "iters": t[1]}})
+    return st.integers(1, len(ws)).flatmap(mk)
+
+
+@_reg_generic("HilbertSchmidt", 2, "template", "nomatrix", "decomp", "opargs")
+def _hilbert_schmidt(wires):
+    def mk(p):
+        k = len(p) // 2
+        k = min(k, 2)
+        return st.tuples(gen.gate(p[:k], NAMED12), gen.gate(p[k:2 * k], NAMED12)).filter(
+            lambda t: len(t[0]["w"]) == len(t[1]["w"])).map(lambda t: {"op": "HilbertSchmidt", "p": [], "w": None, "kw": {"V": t[0], "U": t[1]}})
+    return st.permutations(wires).map(list).flatmap(mk)
+
+
+@_reg_generic("LocalHilbertSchmidt", 2, "template", "nomatrix", "decomp", "opargs")
+def _local_hilbert_schmidt(wires):
+    return _hilbert_schmidt(wires).map(lambda s: {**s, "op": "LocalHilbertSchmidt"})
+
+
+@_reg_generic("GQSP", 2, "template", "nomatrix", "decomp", "opargs", "param")
+def _gqsp(wires):
+    return _split2(wires, 1, 1).flatmap(lambda t: st.tuples(gen.gate(t[1][:2], NAMED12), st.integers(0, 2)).flatmap(
+        lambda u: _arr((3, u[1] + 1)).map(lambda a: {"op": "GQSP", "p": [], "w": None, "kw": {"unitary": u[0], "angles": a, "control": t[0]}})))
+
+
+@_reg_generic("QSVT", 2, "template", "nomatrix", "decomp", "opargs")
+def _qsvt(wires):
+    def mk(w):
+        return st.tuples(gen.float_list(4), st.lists(gen.angles(), min_size=1, max_size=3)).map(
+            lambda t: {"op": "QSVT", "p": [], "w": None, "kw": {
+                "UA": {"op": "BlockEncode", "p": [{"arr": t[0], "shape": [2, 2], "scale": 0.3}], "w": w},
+                "projectors": [{"op": "PCPhase", "p": [a], "w": w, "kw": {"dim": 2}} for a in t[1]]}})
+    return gen.subset(wires, 2).flatmap(mk)
+
+
+# ---- more templates with plain arguments ---------------------------------------------------------------------
+@_reg_generic("GateFabric", 4, "template", "nomatrix", "decomp", "param")
+def _gate_fabric(wires):
+    def mk(w):
+        n = len(w)
+        return st.tuples(st.integers(1, 2), st.booleans(), st.lists(st.integers(0, 1), min_size=n, max_size=n)).flatmap(
+            lambda t: _arr((t[0], n // 2 - 1 + (n // 2 - 1 if n > 4 else 0) if False else _gf_cols(n), 2)).map(
+                lambda a: {"op": "GateFabric", "p": [a], "w": w, "kw": {"init_state": t[2], "include_pi": t[1]}}))
+    return st.sampled_from([k for k in (4, 6) if k <= len(wires)]).flatmap(lambda k: gen.subset(wires, k)).flatmap(mk)
+
+
+def _gf_cols(n):
+    # second weight dimension documented as len(wires)//2 - 1
+    return n // 2 - 1
+
+
+@_reg_generic("ParticleConservingU1", 2, "template", "nomatrix", "decomp", "param")
+def _pc_u1(wires):
+    return _sub(wires, 2, 4).flatmap(lambda w: st.tuples(st.integers(1, 2), st.lists(st.integers(0, 1), min_size=len(w), max_size=len(w))).flatmap(
+        lambda t: _arr((t[0], len(w) - 1, 2)).map(lambda a: {"op": "ParticleConservingU1", "p": [a], "w": w, "kw": {"init_state": t[1]}})))
+
+
+@_reg_generic("ParticleConservingU2", 2, "template", "nomatrix", "decomp", "param")
+def _pc_u2(wires):
+    return _sub(wires, 2, 4).flatmap(lambda w: st.tuples(st.integers(1, 2), st.lists(st.integers(0, 1), min_size=len(w), max_size=len(w))).flatmap(
+        lambda t: _arr((t[0], 2 * len(w) - 1)).map(lambda a: {"op": "ParticleConservingU2", "p": [a], "w": w, "kw": {"init_state": t[1]}})))
+
+
+@_reg_generic("FermionicDoubleExcitation", 4, "template", "nomatrix", "decomp", "param")
+def _fermionic_double(wires):
+    return st.tuples(st.permutations(wires).map(list), gen.angles(), st.integers(2, max(2, len(wires) - 2))).map(
+        lambda t: {"op": "FermionicDoubleExcitation", "p": [t[1]], "w": None, "kw": {"wires1": t[0][:t[2]], "wires2": t[0][t[2]:t[2] + max(2, min(3, len(t[0]) - t[2]))]}})
+
+
+@_reg_generic("FABLE", 3, "template", "nomatrix", "decomp")
+def _fable(wires):
+    # documented: real 2^n x 2^n matrix with |entries| <= 1 on 2n+1 wires
+    return gen.subset(wires, 3).flatmap(lambda w: st.tuples(gen.float_list(4), st.sampled_from([0, 0.05])).map(
+        lambda t: {"op": "FABLE", "p": [], "w": w, "kw": {"input_matrix": {"arr": t[0], "shape": [2, 2], "scale": 0.4}, "tol": t[1]}}))
+
+
+@_reg_generic("Superposition", 2, "stateprep", "template", "nomatrix", "decomp", "workwires")
+def _superposition(wires):
+    def mk(t):
+        ws, work = t[1][:-1] if False else t[1], t[0]
+        n = min(len(ws), 3)
+        ws = ws[:n]
+        return st.lists(st.lists(st.integers(0, 1), min_size=n, max_size=n), min_size=1, max_size=3, unique_by=tuple).flatmap(
+            lambda bases: gen.float_list(4).map(lambda fl: {"op": "Superposition", "p": [], "w": ws, "kw": {
+                "coeffs": {"vecn": fl, "len": len(bases)}, "bases": bases, "work_wire": work[0]}}))
+    return _split2(wires, 1, 1).flatmap(mk)
+
+
+@builder("Superposition")
+def _b_superposition(s):
+    import numpy as np
+    import pennylane as qp
+
+    kw = s["kw"]
+    fl = list(kw["coeffs"]["vecn"])
+    m = kw["coeffs"]["len"]
+    c = np.array([abs(fl[i % len(fl)]) + 0.2 + 0.1 * (i // len(fl)) for i in range(m)])
+    return qp.Superposition(c / np.linalg.norm(c), kw["bases"], wires=_w(s["w"]), work_wire=specs.wire(kw["work_wire"]))
+
+
+# ---- arithmetic templates ----------------------------------------------------------------------------------
+@st.composite
+def _registers(draw, wires, sizes_min):
+    """disjoint registers with at least the given minimum sizes, using a prefix of a permutation of wires"""
+    p = list(draw(st.permutations(wires)))
+    regs = []
+    i = 0
+    for m in sizes_min:
+        regs.append(p[i:i + m])
+        i += m
+    return regs
+
+
+@_reg_generic("Adder", 4, "template", "nomatrix", "decomp", "workwires")
+def _adder(wires):
+    def mk(regs):
+        x, work = regs
+        nx = len(x)
+        return st.tuples(st.integers(-3, 9), st.sampled_from([None] + list(range(2, 2 ** nx + 1)))).map(
+            lambda t: {"op": "Adder", "p": [], "w": None, "kw": {"k": t[0], "x_wires": x, "mod": t[1], "work_wires": work}})
+    return _registers(wires, [2, 2]).flatmap(mk)
+
+
+@_reg_generic("PhaseAdder", 3, "template", "nomatrix", "decomp", "workwires")
+def _phase_adder(wires):
+    def mk(regs):
+        x, work = regs
+        nx = len(x)
+        # documented: x_wires needs one extra bit when mod != 2**len(x_wires): mod <= 2**(nx-1)
+        return st.tuples(st.integers(-3, 9), st.sampled_from([None] + list(range(2, 2 ** (nx - 1) + 1)))).map(
+            lambda t: {"op": "PhaseAdder", "p": [], "w": None, "kw": {"k": t[0], "x_wires": x, "mod": t[1], "work_wire": work}})
+    return _registers(wires, [2, 1]).flatmap(mk)
+
+
+@_reg_generic("Multiplier", 4, "template", "nomatrix", "decomp", "workwires")
+def _multiplier(wires):
+    def mk(regs):
+        x, work = regs
+        # documented: k must have an inverse modulo mod; work wires: len(x) (mod = 2**n) or len(x)+2
+        opts = [(k, None) for k in (1, 3)] + [(2, 3), (1, 3)]
+        return st.sampled_from(opts).map(lambda t: {"op": "Multiplier", "p": [], "w": None,
+                                                    "kw": {"k": t[0], "x_wires": x, "mod": t[1], "work_wires": work if t[1] else work[:len(x)]}})
+    return _registers(wires, [2, 4]).flatmap(mk) if len(wires) >= 6 else st.nothing()
+
+
+ZOO["Multiplier"] = (ZOO["Multiplier"][0], 6, ZOO["Multiplier"][2])
+
+
+@_reg_generic("OutAdder", 5, "template", "nomatrix", "decomp", "workwires")
+def _out_adder(wires):
+    def mk(regs):
+        x, y, out = regs
+        return st.just({"op": "OutAdder", "p": [], "w": None, "kw": {"x_wires": x, "y_wires": y, "output_wires": out, "mod": None, "work_wires": None}})
+    return _registers(wires, [1, 2, 2]).flatmap(mk)
+
+
+@_reg_generic("SemiAdder", 4, "template", "nomatrix", "decomp", "workwires")
+def _semi_adder(wires):
+    def mk(regs):
+        x, y, work = regs
+        return st.just({"op": "SemiAdder", "p": [], "w": None, "kw": {"x_wires": x, "y_wires": y, "work_wires": work}})
+    return _registers(wires, [2, 2, 1]).flatmap(mk) if len(wires) >= 5 else st.nothing()
+
+
+ZOO["SemiAdder"] = (ZOO["SemiAdder"][0], 5, ZOO["SemiAdder"][2])
+
+
+@_reg_generic("Incrementer", 2, "template", "nomatrix", "decomp", "workwires")
+def _incrementer(wires):
+    return _registers(wires, [2, 1]).map(lambda r: {"op": "Incrementer", "p": [], "w": r[0], "kw": {"work_wires": r[1]}}) if len(wires) >= 3 else st.nothing()
+
+
+@_reg_generic("QROM", 3, "template", "nomatrix", "decomp", "workwires")
+def _qrom(wires):
+    def mk(regs):
+        cw, tw = regs
+        nb = 2 ** len(cw)
+        return st.lists(st.text("01", min_size=len(tw), max_size=len(tw)), min_size=1, max_size=nb).map(
+            lambda bs: {"op": "QROM", "p": [], "w": None, "kw": {"bitstrings": bs, "control_wires": cw, "target_wires": tw, "work_wires": None}})
+    return _registers(wires, [1, 2]).flatmap(mk)
